@@ -22,6 +22,7 @@ args/result type:
 Known-defect probes (hand-written IDL) pin the constructs the Go generator cannot compile.
 """
 import base64
+import collections
 import struct
 
 import lab
@@ -67,11 +68,80 @@ def go_eq(p, t, a, b):
     return a == b
 
 
+# Known finding C02-go-default-from-constant (the C03 finding of the same name, seen from the codec): an optional
+# field whose default names a constant of a typedef'd type.  The Go generator emits such a constant as a package
+# variable assigned in init(), and `var <S>_<F>_DEFAULT T = <Const>` as a package-level initialiser that runs before
+# init(): IsSet<F>() compares with Go's zero value instead of the declared default.  INIT_CONST_QUIRK = True makes
+# is_set follow the emitted code; it is used only to recognise that defect precisely (everything else still fails).
+INIT_CONST_QUIRK = False
+KNOWN_INIT_CONST = {"class": "optional_default_from_init_constant"}
+
+
+def init_const_default(p, f):
+    d = f.get("default")
+    if f["mod"] != "optional" or not d or not d.get("const"):
+        return False
+    cf, cn = d["const"]
+    c = [x for x in p["files"][cf]["consts"] if x["name"] == cn]
+    if not c or c[0]["type"][0] != "ref":
+        return False         # spelled as a base type: a Go const, no init order problem
+    return L.lookup(p, c[0]["type"][1], c[0]["type"][2])[0] == "typedef"
+
+
+def has_init_const_default(p, sdef, seen=None):
+    """does the struct-like, or one reachable from it, have such a field"""
+    seen = set() if seen is None else seen
+    if id(sdef) in seen:
+        return False
+    seen.add(id(sdef))
+    for f in sdef["fields"]:
+        if init_const_default(p, f):
+            return True
+        todo = [f["type"]]
+        while todo:
+            t = L.resolve(p, todo.pop())
+            if t[0] == "ref":
+                k, d = L.lookup(p, t[1], t[2])
+                if k == "struct" and has_init_const_default(p, d, seen):
+                    return True
+            else:
+                todo += [x for x in t[1:] if isinstance(x, list)]
+    return False
+
+
+def quirk_union_count_off(p, t, v):
+    """under the emitted IsSet of the known finding: does v hold a union whose CountSetFields is not 1"""
+    global INIT_CONST_QUIRK
+    if v is None:
+        return False
+    r = L.resolve(p, t)
+    if r[0] == "ref":
+        k, d = L.lookup(p, r[1], r[2])
+        if k == "enum":
+            return False
+        if d["kind"] == "union":
+            INIT_CONST_QUIRK = True
+            try:
+                n = sum(1 for f in d["fields"] if is_set(p, f, v.get(f["id"])))
+            finally:
+                INIT_CONST_QUIRK = False
+            if n != 1:
+                return True
+        return any(quirk_union_count_off(p, f["type"], v.get(f["id"])) for f in d["fields"])
+    if r[0] in ("list", "set"):
+        return any(quirk_union_count_off(p, r[1], x) for x in v)
+    if r[0] == "map":
+        return any(quirk_union_count_off(p, r[1], k) or quirk_union_count_off(p, r[2], x) for k, x in v)
+    return False
+
+
 def is_set(p, f, v):
     """IsSet as the IDL semantics of the emitted representation define it."""
     hk = L.head_kind(p, f["type"])
     gk = L.go_kind(p, f)
     d = f.get("default")
+    if INIT_CONST_QUIRK and init_const_default(p, f):
+        return not go_eq(p, f["type"], v, L.zero_value(p, f["type"]))
     if hk == "base:binary" and d is not None:
         return not go_eq(p, f["type"], v, d["value"])
     if gk == "V" and d is not None:
@@ -742,6 +812,7 @@ def _method_defs(prog, fn):
 
 
 def _run_program(ctx, prog, lb, gen_opts, n_values, stats, judge_cases, judge_meta, cjudge=None):
+    global INIT_CONST_QUIRK
     rng = ctx.rng
     p = prog
     keys = lb.struct_keys()
@@ -880,22 +951,60 @@ def _run_program(ctx, prog, lb, gen_opts, n_values, stats, judge_cases, judge_me
         t = struct_type_of(fn, s, p)
         stats["values"] += 1
         rep = {"program": p["id"], "gen_opts": gen_opts, "type": k, "go_value": L.struct_to_wire(p, s, v)}
-        try:
-            ew = expected_struct(p, s, v)
-            want = ("ok", ew)
-        except UnionCount as e:
-            want = ("union", e.args[0])
-        except NilDeref as e:
-            want = ("nil", e.args[0])
+        want = _write_want(p, s, v)
+        known_protos = set()
         for pr in protos:
             r = wres[i][pr]
             stats["write/" + pr] += 1
-            why = None
+            why = _write_why(p, s, t, pr, want, r, trees.get((i, pr)), stats)
+            if why:
+                sig = None
+                if has_init_const_default(p, s):
+                    # the observation is exactly what the emitted IsSet (default read before init()) produces?
+                    INIT_CONST_QUIRK = True
+                    try:
+                        if _write_why(p, s, t, pr, _write_want(p, s, v), r, trees.get((i, pr)), collections.Counter()) is None:
+                            sig = KNOWN_INIT_CONST
+                            known_protos.add(pr)
+                            stats["known_init_const_default/" + pr] += 1
+                    finally:
+                        INIT_CONST_QUIRK = False
+                rr = dict(rep, proto=pr, observed=r, idl=L.render(p))
+                ctx.violation("C02 oracle (Write, %s): %s" % (pr, why), rr, signature=sig)
+        # judge case: binary Write
+        r = wres[i]["binary"]
+        sub = [1, struct_tok(p, s, v), r.get("code", 103), bytes.fromhex(r.get("out", "") or "")]
+        per_type.setdefault(k, []).append((sub, dict(rep, op="write", observed=r,
+                                                     known_sig=KNOWN_INIT_CONST if "binary" in known_protos else None)))
+        # judge case: compact Write (byte-exact against Model/ThriftCompact.v)
+        r = wres[i]["compact"]
+        sub = [1, struct_tok(p, s, v), r.get("code", 103), bytes.fromhex(r.get("out", "") or "")]
+        per_type_c.setdefault(k, []).append((sub, dict(rep, op="write", proto="compact", observed=r,
+                                                       known_sig=KNOWN_INIT_CONST if "compact" in known_protos else None)))
+
+    _read_oracle(ctx, p, plan, gen_opts, stats, rmeta, rres, diff_index, per_type, per_type_c)
+    _emit_judge_cases(p, keys, names, per_type, per_type_c, judge_cases, judge_meta, cjudge)
+
+
+def _write_want(p, s, v):
+    try:
+        return ("ok", expected_struct(p, s, v))
+    except UnionCount as e:
+        return ("union", e.args[0])
+    except NilDeref as e:
+        return ("nil", e.args[0])
+
+
+def _write_why(p, s, t, pr, want, r, tr, stats):
+    """the property on one observed Write: None if it holds, else what is wrong"""
+    why = None
+    if True:
+        if True:
+            ew = want[1]
             if want[0] == "ok":
                 if r.get("code") != 0:
                     why = "Write failed on a value of the declared type: %s %s" % (r.get("code"), r.get("err") or r.get("panic"))
                 else:
-                    tr = trees[(i, pr)]
                     if pr == "json" and tr.get("code") != 0 and ("Infinit" in str(tr.get("err")) or "NaN" in str(tr.get("err"))):
                         # Apache Thrift's TJSON reader short-reads "-Infinity"/"NaN" at a bufio boundary (library
                         # defect in the test equipment, not in generated code): the case is not judged under JSON
@@ -918,19 +1027,10 @@ def _run_program(ctx, prog, lb, gen_opts, n_values, stats, judge_cases, judge_me
             elif want[0] == "nil":
                 if r.get("code") == 0:
                     why = "nil required struct field was written"
-            if why:
-                rr = dict(rep, proto=pr, observed=r, idl=L.render(p))
-                ctx.violation("C02 oracle (Write, %s): %s" % (pr, why), rr)
-        # judge case: binary Write
-        r = wres[i]["binary"]
-        sub = [1, struct_tok(p, s, v), r.get("code", 103), bytes.fromhex(r.get("out", "") or "")]
-        per_type.setdefault(k, []).append((sub, dict(rep, op="write", observed=r)))
-        # judge case: compact Write (byte-exact against Model/ThriftCompact.v)
-        r = wres[i]["compact"]
-        sub = [1, struct_tok(p, s, v), r.get("code", 103), bytes.fromhex(r.get("out", "") or "")]
-        per_type_c.setdefault(k, []).append((sub, dict(rep, op="write", proto="compact", observed=r)))
+    return why
 
-    base_results = {}
+
+def _read_oracle(ctx, p, plan, gen_opts, stats, rmeta, rres, diff_index, per_type, per_type_c):
     for j, ((i, tr, info, b, pr), r) in enumerate(zip(rmeta, rres)):
         k, fn, s, v = plan[i]
         t = struct_type_of(fn, s, p)
@@ -968,6 +1068,10 @@ def _run_program(ctx, prog, lb, gen_opts, n_values, stats, judge_cases, judge_me
             if rb.get("code") != r.get("code") or (r.get("code") == 0 and
                                                    go_norm(p, t, L.struct_from_wire(p, s, rb["value"])) != go_norm(p, t, got)):
                 why = "Read under %s differs from Read under binary for the same content" % pr
+        if why and mut in ("none", "unknown", "reorder") and r.get("code") == 4 and has_init_const_default(p, s) and \
+                quirk_union_count_off(p, t, v):
+            known_sig = KNOWN_INIT_CONST     # a union counted with the emitted IsSet (default read before init())
+            stats["known_init_const_default/read/" + pr] += 1
         if why:
             ctx.violation("C02 oracle (Read, %s): %s" % (pr, why), dict(rep, idl=L.render(p)), signature=known_sig)
         if pr in ("binary", "compact"):
@@ -976,8 +1080,11 @@ def _run_program(ctx, prog, lb, gen_opts, n_values, stats, judge_cases, judge_me
             else:
                 oval = []
             sub = [2, b, r.get("code", 103), oval, r.get("rest", 0) if r.get("code") == 0 else 0]
-            (per_type if pr == "binary" else per_type_c).setdefault(k, []).append((sub, dict(rep, op="read")))
+            (per_type if pr == "binary" else per_type_c).setdefault(k, []).append((sub, dict(rep, op="read", known_sig=known_sig)))
 
+
+
+def _emit_judge_cases(p, keys, names, per_type, per_type_c, judge_cases, judge_meta, cjudge):
     targets = [(per_type, judge_cases, judge_meta)]
     if cjudge is not None:
         targets.append((per_type_c, cjudge[0], cjudge[1]))
@@ -987,9 +1094,12 @@ def _run_program(ctx, prog, lb, gen_opts, n_values, stats, judge_cases, judge_me
             self_name = names.get((fn, s["name"])) if not s.get("role") else None
             if self_name is None:
                 self_name = 100000 + len(jcases)
-            subs = pt[k]
-            for c0 in range(0, len(subs), 40):
-                chunk = subs[c0:c0 + 40]
+            # observations the direct oracle attributed to the known finding are judged one per case, so that a
+            # mismatch there never hides the sub-cases that follow it in a chunk
+            marked = [x for x in pt[k] if x[1].get("known_sig")]
+            subs = [x for x in pt[k] if not x[1].get("known_sig")]
+            chunks = [subs[c0:c0 + 40] for c0 in range(0, len(subs), 40)] + [[x] for x in marked]
+            for chunk in chunks:
                 jcases.append([env_tok(p, names, s, fn, self_name), [11, self_name], [x[0] for x in chunk]])
                 jmeta.append([x[1] for x in chunk])
 
@@ -1031,6 +1141,46 @@ def _first_diff(p, s, got, want):
     return "?"
 
 
+def par_judges(ctx, jobs):
+    """jobs: [(module, cases, name)] -> [verdict lists]; the cases of each job are cut into groups of similar token
+    volume and the groups of all jobs are judged by concurrent coqc processes (at most VERIF_JOBS, at most 4)"""
+    import concurrent.futures
+    import os
+    nproc = max(1, min(4, int(os.environ.get("VERIF_JOBS", "2") or 2)))
+    tasks = []
+    for ji, (module, cases, name) in enumerate(jobs):
+        if not cases:
+            continue
+        per = max(1, nproc // max(1, sum(1 for j in jobs if j[1])))
+        size = [len(repr(c)) for c in cases]
+        target = sum(size) / float(per) + 1
+        groups, cur, acc = [], [], 0
+        for c, z in zip(cases, size):
+            if cur and acc + z > target and len(groups) < per - 1:
+                groups.append(cur)
+                cur, acc = [], 0
+            cur.append(c)
+            acc += z
+        groups.append(cur)
+        for gi, g in enumerate(groups):
+            tasks.append((ji, gi, module, g, "%s%d_" % (name, gi)))
+    out = {}
+    with concurrent.futures.ThreadPoolExecutor(max_workers=nproc) as ex:
+        futs = {ex.submit(vlib.run_judge, ctx.rundir, module, "judge", g, 600000, 2400, nm): (ji, gi)
+                for ji, gi, module, g, nm in tasks}
+        for f in concurrent.futures.as_completed(futs):
+            out[futs[f]] = f.result()
+    res = []
+    for ji, (module, cases, name) in enumerate(jobs):
+        vs = []
+        gi = 0
+        while (ji, gi) in out:
+            vs += out[(ji, gi)]
+            gi += 1
+        res.append(vs)
+    return res
+
+
 def run(ctx, br):
     import collections
     quick = ctx.tier == "quick"
@@ -1054,8 +1204,10 @@ def run(ctx, br):
         nprog += 1
         if len(ctx.violations) - before > 30:
             break
+    import time
+    t_lab = time.time() - ctx.t0
     # ---- correspondence: the Coq model replays every binary Write and Read
-    verdicts = vlib.run_judge(ctx.rundir, "JThriftBin", "judge", judge_cases, shard=600000) if judge_cases else []
+    verdicts, cverdicts = par_judges(ctx, [("JThriftBin", judge_cases, "j"), ("JThriftCompact", cjudge_cases, "jc")])
     mism = 0
     tagbits = collections.Counter()
     for case, meta, v in zip(judge_cases, judge_meta, verdicts):
@@ -1065,7 +1217,7 @@ def run(ctx, br):
             rep = dict(m)
             rep["no_failing_input_found"] = True
             rep["broken"] = "correspondence JThriftBin.judge (Model/ThriftBin.v gwrite/gread disagrees with the generated code on this input)"
-            known = None
+            known = m.get("known_sig")
             ctx.violation("C02 correspondence: model and generated code disagree (%s of %s)" % (m.get("op"), m.get("type")), rep,
                           signature=known)
         else:
@@ -1073,8 +1225,8 @@ def run(ctx, br):
                 if v >> b & 1:
                     tagbits[1 << b] += 1
     validated = sum(len(m) for m, v in zip(judge_meta, verdicts) if v >= 0)
+    t_jbin = time.time() - ctx.t0 - t_lab      # both judges (they run concurrently)
     # ---- correspondence, compact protocol: every compact Write (byte-exact) and Read replayed on Model/ThriftCompact.v
-    cverdicts = vlib.run_judge(ctx.rundir, "JThriftCompact", "judge", cjudge_cases, shard=600000, name="jc") if cjudge_cases else []
     cmism = 0
     ctagbits = collections.Counter()
     for case, meta, v in zip(cjudge_cases, cjudge_meta, cverdicts):
@@ -1085,7 +1237,8 @@ def run(ctx, br):
             rep["no_failing_input_found"] = True
             rep["broken"] = "correspondence JThriftCompact.judge (Model/ThriftCompact.v gcwrite/gcread disagrees with the generated " \
                             "code over TCompactProtocol on this input; theorems c02_compact_*)"
-            ctx.violation("C02 correspondence (compact): model and generated code disagree (%s of %s)" % (m.get("op"), m.get("type")), rep)
+            ctx.violation("C02 correspondence (compact): model and generated code disagree (%s of %s)" % (m.get("op"), m.get("type")), rep,
+                          signature=m.get("known_sig"))
         else:
             for b in range(10):
                 if v >> b & 1:
@@ -1114,6 +1267,7 @@ def run(ctx, br):
         "judge_cases": len(judge_cases),
         "judge_mismatches": mism,
         "model_branch_hits": {str(k): v for k, v in sorted(tagbits.items())},
+        "phase_wall_s": {"build_and_lab": round(t_lab, 1), "judges_binary_and_compact_concurrent": round(t_jbin, 1)},
         "compact_judge_cases": len(cjudge_cases),
         "compact_judge_mismatches": cmism,
         "compact_model_branch_hits": {str(k): v for k, v in sorted(ctagbits.items())},
